@@ -14,7 +14,7 @@ from hypothesis import strategies as st
 
 from .. import ast as A
 from ..runner import Outcome, fail, open_features
-from ..strategies import Cfg, query_case
+from ..strategies import Cfg, query_case, chance
 from ..world import build_entities, CLASSES
 from ..build import build_over
 from ..qcheck import case_features
@@ -59,6 +59,8 @@ def _cfg():
 
 @st.composite
 def _case(draw, tier):
+    if chance(draw, 1, 8):
+        return draw(_large_case())
     c = draw(query_case(_cfg()))
     ops = []
     for _ in range(draw(st.integers(1, 4))):
@@ -68,6 +70,23 @@ def _case(draw, tier):
             ops.append(["full"])
     c["ops"] = ops
     return c
+
+
+@st.composite
+def _large_case(draw):
+    """A domain well beyond 20 elements (the library switches on extra bookkeeping for 'large' domains of more than 20
+    memoised values, symbolic.py _warn_on_unbound_variables_), consumed in several partial evaluations."""
+    n = draw(st.integers(22, 30))
+    ents = [{"cls": "Ent", "k": i + 1, "a": draw(st.sampled_from([0, 1, 2])), "b": 1, "s": "x", "tags": [1], "o": 1, "ref": 0,
+             "kids": [], "d": {"p": 1, "q": 2}} for i in range(n)]
+    cond = draw(st.sampled_from([None, None, ["cmp", ">=", ["attr", ["var", 0], "a"], ["const", 0]],
+                                 ["cmp", ">=", ["attr", ["var", 0], "a"], ["const", 1]]]))
+    ops = [["partial", draw(st.integers(20, 24))], ["partial", draw(st.integers(1, 3))], ["full"]]
+    if draw(st.booleans()):
+        ops.insert(0, ["partial", draw(st.integers(1, 5))])
+    return {"ents": ents, "doms": [list(range(n))], "vars": [{"dom": 0, "decl": draw(st.sampled_from(["let", "from"])), "type": "Ent"}],
+            "cond": cond, "dom_kind": "list", "split_top": False, "quant": "an", "sel": [["var", 0]], "desc": "entity",
+            "ops": ops, "large": True}
 
 
 def strategy(tier):
@@ -87,6 +106,8 @@ def check(case) -> Outcome:
     if any(type(o).__name__ in ("Other", "Foreign") for o in items):
         classes.append("mixed_types")
     classes += [f for f in feats if f in ("and", "or", "not", "or_same_vars", "pred")]
+    if case.get("large"):
+        classes.append("domain_over_20_elements")
     nontrivial = False
     skipped_before = bool(q_idx) and any(not qualifies[j] for j in range(q_idx[-1]))
 
